@@ -76,6 +76,27 @@ impl InlineCache {
     }
   }
 
+  /// Grow this cache to hold at least the provided number of slots.
+  /// Existing entries are kept
+  pub fn grow(&mut self, property_slots: usize, invoke_slots: usize) {
+    if property_slots > self.property.len() {
+      self.property.resize(property_slots, None);
+    }
+    if invoke_slots > self.invoke.len() {
+      self.invoke.resize(invoke_slots, None);
+    }
+  }
+
+  /// An id emitter that continues after the slots this cache already
+  /// holds. Code compiled later into the same module (the repl) must not
+  /// reuse the slots of code that is still callable
+  pub fn id_emitter(&self) -> CacheIdEmitter {
+    CacheIdEmitter {
+      property: IdEmitter::starting_at(self.property.len()),
+      invoke: IdEmitter::starting_at(self.invoke.len()),
+    }
+  }
+
   /// Attempt to retrieve the property cache at a given slot
   /// for the provided class
   pub fn get_property_cache(&self, inline_slot: usize, class: ObjRef<Class>) -> Option<usize> {
